@@ -43,6 +43,10 @@ def plan(tier):
             pl.append((p, 2, dict(kinds=("P", "T"))))
         pl += [(PG.submit_vs_shutdown(1, True), 2, dict(kinds=("P",), starve="parent:user")),
                (PG.two_submitters(2, None), 2, dict(kinds=("P",)))]
+    # source-line granularity (one preemption at any line of loky run by a parent thread)
+    pl += simcheck.line_plan([PG.two_submitters(2, 0.05), PG.submit_vs_shutdown(1, True), PG.cancel_prog(1)])
+    if tier == "thorough":
+        pl += simcheck.line_plan(progs)
     return pl
 
 
